@@ -332,7 +332,9 @@ def normalize_python_version_markers(  # NOSONAR
 ) -> str:
     ors = []
     for or_ in disjunction:
-        ands = []
+        # "in" with several versions is a disjunction inside the conjunction:
+        # the conjunction is expanded into one alternative per version
+        alternatives: list[list[str]] = [[]]
         for op, version in or_:
             # Expand python version
             if op == "==" and "*" not in version and version.count(".") < 2:
@@ -386,13 +388,19 @@ def normalize_python_version_markers(  # NOSONAR
                     versions.append(op_ + ".".join(split))
 
                 if versions:
-                    glue = " || " if op == "in" else ", "
-                    ands.append(glue.join(versions))
+                    if op == "in":
+                        alternatives = [
+                            [*ands, v] for ands in alternatives for v in versions
+                        ]
+                    else:
+                        for ands in alternatives:
+                            ands.append(", ".join(versions))
 
                 continue
 
-            ands.append(f"{op}{version}")
+            for ands in alternatives:
+                ands.append(f"{op}{version}")
 
-        ors.append(" ".join(ands))
+        ors.extend(" ".join(ands) for ands in alternatives)
 
     return " || ".join(ors)
